@@ -1508,6 +1508,9 @@ impl<S: BitmapSlice + Send + Sync> FileSystem for PassthroughFs<S> {
         // Acquire the lock to get exclusive access, otherwise it may break do_readdir().
         let (_guard, file) = data.get_file_mut();
 
+        // The fd is about to move: the position cached by do_readdir() no longer describes it.
+        self.handle_map.remove_cookie(handle);
+
         // TODO: `offset as off64_t` truncates high-bit NFS directory cookies
         // the same way as the old do_readdir code.  SEEK_SET with offset >
         // i64::MAX will receive EINVAL from nfs_llseek_dir().
